@@ -49,8 +49,7 @@ impl<M: RawMutex + 'static> Sys<M> {
             if let Some(s) = s {
                 if s.fut.is_alive() {
                     let node = s.fut.get().verif_node();
-                    let linked = node.tag == 1;
-                    v.push(LiveNode { group: G, slot: i, node, linked_expected: linked });
+                    v.push(LiveNode::new(G, i, node, &s.meta));
                 }
             }
         }
